@@ -54,6 +54,9 @@ def tags_of(node):
     return tags
 
 
+REPLAY_OPTS = {}     # non-default options in force while a case runs (recorded in the replay file of a failing expression)
+
+
 def judge(R, node, what, extra_check=None, cache=None):
     """evaluate node on the library and in the model and compare; -> (impl result | None, model)"""
     R.tr()
@@ -67,7 +70,7 @@ def judge(R, node, what, extra_check=None, cache=None):
         raise
     except Exception as err:  # noqa: BLE001
         R.fail(what, "exception", f"{type(err).__name__}: {err} for {short(node)}", tags=tags_of(node),
-               sub={"k": "expr", "e": node, "what": what})
+               sub={"k": "expr", "e": node, "what": what, "opts": dict(REPLAY_OPTS)})
         return None, expected
     problems = []
     if not isinstance(got, numpoly.ndpoly):
@@ -87,7 +90,7 @@ def judge(R, node, what, extra_check=None, cache=None):
             problems.extend(extra_check(got))
     if problems:
         R.fail(what, "wrong-value", "; ".join(problems)[:400] + f" for {short(node)}", tags=tags_of(node),
-               sub={"k": "expr", "e": node, "what": what})
+               sub={"k": "expr", "e": node, "what": what, "opts": dict(REPLAY_OPTS)})
         return None, expected
     R.outcome(expected.key())
     return got, expected
@@ -283,6 +286,8 @@ def cases(tier, seed):
         out.append({"k": "powarray", "a": list(sa), "b": list(sb)})
     for i in range(8):
         out.append({"k": "powvalues", "first": i})
+    for pre in ("z", "var", "x_"):
+        out.append({"k": "naming", "pre": pre})
     # programs: every (state of depth<=1) as left operand; x ranges over all states of depth<=1
     n1 = len(program_states(1))
     for i in range(n1):
@@ -304,9 +309,18 @@ def cached_impl(node, key):
 
 
 def run_case(case, R, extra_check=None):
+    REPLAY_OPTS.clear()
+    try:
+        return _run_case(case, R, extra_check)
+    finally:
+        REPLAY_OPTS.clear()
+
+
+def _run_case(case, R, extra_check=None):
     k = case["k"]
     if k == "expr":
-        judge(R, case["e"], case.get("what", "expr"), extra_check)
+        with numpoly.global_options(**case.get("opts", {})):
+            judge(R, case["e"], case.get("what", "expr"), extra_check)
     elif k == "u0row":
         specs = u0_specs()
         a = P(specs[case["i"]])
@@ -447,6 +461,33 @@ def run_case(case, R, extra_check=None):
                 judge(R, {"op": "np.power", "x": [P(arr(sa, "int", 1)), e]}, "np.power", extra_check)
                 judge(R, {"op": "pow", "x": [P(arr(sa, "int", 1)), {"l": e["a"]}]} if sb else
                       {"op": "pow", "x": [P(arr(sa, "int", 1)), {"s": 2}]}, "pow", extra_check)
+    elif k == "naming":
+        # the ring operations under other naming options: indeterminates <prefix><number> with prefixes of 1-3 characters
+        import re
+        pre = case["pre"]
+        R.state(("naming", pre))
+
+        def ren(sp):
+            return dict(sp, n=[pre + n[1:] for n in sp["n"]])
+        REPLAY_OPTS.update(default_varname=pre, varname_filter=re.escape(pre) + r"\d+")
+        with numpoly.global_options(**REPLAY_OPTS):
+            for sa, sb in (((), ()), ((2,), (2,)), ((2, 1), (3,)), ((2, 2), ())):
+                for names_b in (("q0", "q1"), ("q1", "q2"), ("q2", "q10")):
+                    a = P(ren(arr(sa, "int", 0)))
+                    b = P(ren(arr(sb, "float", 1, names=names_b)))
+                    for op in BINOPS:
+                        judge(R, {"op": op, "x": [a, b]}, op, extra_check)
+                        judge(R, {"op": op, "x": [b, a]}, op, extra_check)
+                    judge(R, {"op": "pow", "x": [b, {"s": 2}]}, "pow", extra_check)
+                    judge(R, {"op": "neg", "x": [b]}, "neg", extra_check)
+                for form in ("pyscalar", "array", "list"):
+                    if form != "pyscalar" and not sa:
+                        continue
+                    leaf = numeric_leaf("int", () if form == "pyscalar" else sa, form)
+                    a = P(ren(arr(sa, "int", 2, names=("q1", "q2"))))
+                    for op in BINOPS:
+                        judge(R, {"op": op, "x": [a, leaf]}, op + ":" + form + "-right", extra_check)
+                        judge(R, {"op": op, "x": [leaf, a]}, op + ":" + form + "-left", extra_check)
     elif k == "powvalues":
         # exponent arrays: every ordered pair and triple over a menu of values on both sides of 8 and 16, as array and list
         menu = [0, 1, 2, 3, 7, 8, 9, 16]
